@@ -1,5 +1,7 @@
 import TuModel.Model.Wire
 import TuModel.Model.Dict
+import TuModel.Model.DictFile
+import TuModel.Model.Special
 namespace Tu.Drive
 open Tu Tu.Wire
 
@@ -23,6 +25,18 @@ def dictD (op : String) (args : List Nat) : Option String :=
         | none, none => "ok none"
         | some (idxs, f), some i => if idxs.contains i then ok [f] else "refuse not-a-closest-most-frequent-entry"
         | _, _ => "refuse"
+      | none => reject
+  | "dictload" => some <| match runP (do let bytes ← pNats; let cps ← pNats; pure (bytes, cps)) args with
+      -- the file as bytes and, when it is valid UTF-8, as code points (checked here by re-encoding)
+      | some (bytes, cps) =>
+        if !validUtf8 bytes then (if cps.isEmpty then err "load" else reject)
+        else if cps.flatMap utf8 != bytes then reject
+        else match dictLoad cps with
+          | none => err "load"
+          | some d => ok ([d.freqSum] ++ eList (fun (e : Key × Nat) => eNats e.1 ++ [e.2]) (sortEntries d.entries))
+      | none => reject
+  | "dictsave" => some <| match runP (do let es ← pList (pPair pNats pNat); let file ← pNats; pure (es, file)) args with
+      | some (es, file) => if saveAccepts es file then "accept" else "refuse"
       | none => reject
   | _ => none
 
